@@ -29,7 +29,7 @@ RULE = (
     'slice, or an import with constraints. Round 4: a source node with value and children, '
     'import-modify-reference, options and $unit given by reference, a sourced file rewritten between parses. '
     'Round 8: sliced references written as modifications; hosts defined through (multi-axis) slices assigned '
-    'again. Distinct = distinct case JSON.'
+    'again. Round 10: the same reference twice around a modification of the referenced node with no definition in between; imports of nodes holding the empty text or none (scalar and array). Distinct = distinct case JSON.'
 )
 ASSUMPTIONS = [
     "remote sources are immutable inside one parse: source modifications are generated for local/base sources only",
